@@ -131,6 +131,106 @@ def run_schedule(ctx, side, choices, rng, bound):
         close()
 
 
+def run_call_schedule(ctx, choices, rng, bound):
+    """Threaded server: call() waits in one thread while the client's
+    acknowledgement is handled in another.  Whenever the waiter wakes up, the
+    acknowledged values are there: call() returns them (never None for an
+    acknowledgement that carried a value)."""
+    sched = SC.ThreadScheduler(
+        choices=choices, rng=rng, preemption_bound=bound,
+        switch_prob=(rng.choice([0.02, 0.05, 0.15]) if rng is not None
+                     else None), max_steps=200000)
+    ns = '/a'
+    d = D.SyncDrive(async_handlers=True, autojoin=False,
+                    namespaces=['/', ns])
+    d.on('connect', lambda sid, env, auth=None: None, ns)
+    t = d.open()
+    t.connect(ns)
+    sid = t.sids[ns]
+    t.drain()
+    d.eio.create_event = lambda *a, **k: SC.SchedEvent(sched, 'call_event')
+    args = rng.choice([['pong'], ['pong', 2], [{'k': 1}]]) \
+        if rng is not None else ['pong']
+    out = {}
+
+    def caller():
+        try:
+            out['result'] = ('ok', d.sio.call('q', {'x': 1}, to=sid,
+                                              namespace=ns, timeout=5))
+        except Exception as e:
+            out['result'] = (type(e).__name__, None)
+
+    def sent_id():
+        t.drain()
+        for p in t.packets:
+            if p['type'] == R.EVENT and p['data'][0] == 'q':
+                return p['id']
+        return None
+
+    def acker():
+        sched.block_until(lambda: sent_id() is not None, 'client.got_event')
+        t.send_packet(R.ACK, ns, sent_id(), args)
+    try:
+        sched.spawn('call', caller)
+        sched.spawn('ack', acker)
+        SC.enable_lines(sched, _files('server'))
+        try:
+            trace = sched.run()
+        finally:
+            SC.disable_lines()
+        ctx.count('call_wakeup_schedules')
+        wit = {'part': 'call_wakeup', 'choices': [c for _, c in trace],
+               'bound': bound, 'acknowledged': args,
+               'labels': [[a, lbl] for a, lbl in sched.labels][-60:],
+               'result': core_jsonable(out.get('result'))}
+        if sched.aborted:
+            SC.report_abort(ctx, sched, wit)
+            return trace
+        errs = list(sched.errors) + d.errors()
+        if errs:
+            wit['errors'] = [{'exc': e.get('exc'), 'tb': (e.get('tb') or
+                                                          '')[-1200:]}
+                             for e in errs[:3]]
+            ctx.violation(None, 'call() racing with its acknowledgement: '
+                          'exception (%s)' % errs[0].get('exc'), wit)
+            return trace
+        want = args[0] if len(args) == 1 else tuple(args)
+        got = out.get('result')
+        if not got or got[0] != 'ok' or got[1] != want:
+            ctx.violation(None, 'call() whose acknowledgement %r was handled '
+                          'by another thread returned %r' % (args, got), wit)
+            return trace
+        ctx.case(('call_wakeup', len(args),
+                  tuple(c for _, c in trace)[:60]), None)
+        return trace
+    finally:
+        d.close()
+
+
+def core_jsonable(x):
+    from vlib import core
+    return core.jsonable(x)
+
+
+def run_call_part(ctx, seconds):
+    import time
+    t_end = time.time() + seconds
+    choices = []
+    n = 0
+    while choices is not None and time.time() < t_end and \
+            not ctx.too_many_violations():
+        trace = run_call_schedule(ctx, choices, None, 1)
+        n += 1
+        choices = SC.next_schedule(trace)
+    ctx.extra['call_wakeup'] = {'schedules_at_most_1_preemption': n,
+                                'complete': choices is None}
+    k = ctx.shard * 10 ** 6
+    while time.time() < t_end and not ctx.too_many_violations():
+        rng = ctx.case_rng(15 * 10 ** 7 + k)
+        run_call_schedule(ctx, [], rng, None)
+        k += 1
+
+
 def run_part(ctx, side, seconds):
     import time
     t_end = time.time() + seconds
@@ -154,4 +254,6 @@ def run_part(ctx, side, seconds):
 
 def replay(ctx, w):
     wi = w['witness']
+    if wi.get('part') == 'call_wakeup':
+        return run_call_schedule(ctx, wi['choices'], None, wi.get('bound'))
     run_schedule(ctx, wi['side'], wi['choices'], None, wi.get('bound'))
